@@ -453,7 +453,6 @@ func runC02(c *Ctx) {
 			"the variable handed to ItemActionTracker.Remove is assigned again after the cursor was moved to the leaf successor: removing an item that sits in an inner node records the SUCCESSOR's removal (and locks the successor's id); the first commit attempt writes the nodes as they are, but after a conflict the refetch-and-merge replays the tracker - the item really removed comes back and the successor disappears, with Commit returning nil")
 	}
 
-
 	r8 := c.Rule("R8", "an update leaves a newer item version behind, which is what makes a concurrent reader's commit fail its refetch-and-merge check: in itemActionTracker.Update the version bump is applied to the incoming item (the object the caller writes back into the node slot and the tracker keeps), not to the copy tracked before", 2)
 	{
 		f := w.Fn("common.itemActionTracker.Update")
